@@ -112,7 +112,14 @@ struct Found {
 /// The engine's plan, optionally scaled by VERIF_PLAN_SCALE (used for the slow sanitizer build).
 fn scaled_plan(engine: &dyn Engine, prop: &str, tier: &str) -> Vec<(String, u64)> {
     let scale: f64 = std::env::var("VERIF_PLAN_SCALE").ok().and_then(|s| s.parse().ok()).unwrap_or(1.0);
-    engine.plan(prop, tier).into_iter().map(|(s, n)| (s, if scale == 1.0 { n } else { ((n as f64 * scale) as u64).max(1) })).collect()
+    // VERIF_SCEN_FILTER keeps only the scenarios whose name contains the given text
+    let filter = std::env::var("VERIF_SCEN_FILTER").ok();
+    engine
+        .plan(prop, tier)
+        .into_iter()
+        .filter(|(s, _)| filter.as_ref().map(|f| s.contains(f.as_str())).unwrap_or(true))
+        .map(|(s, n)| (s, if scale == 1.0 { n } else { ((n as f64 * scale) as u64).max(1) }))
+        .collect()
 }
 
 fn worker(engine: &dyn Engine, prop: &str, tier: &str, master: u64, start: u64, stride: u64) {
